@@ -38,4 +38,6 @@ def run(ctx):
     ctx.explain("E-VNM.key: the key type of the name index (Unowned<str>) compares and hashes by content through hand-written "
                 "impls (`**self`), as its Borrow<str> lookups require; a derived impl would use the pointer.")
     evnm2.check_key_type(ctx, F)
+    nd = evnm2.check_displaced_removed(ctx, F)
+    ctx.floor("E-VNM.displace.nonempty", "guarded removals of displaced names", nd, 1)
     ctx.not_decided = "the bijection over call sequences as behaviour; that adding variables preserves functions"
